@@ -6,14 +6,14 @@ from vlib import Infra, read_ndjson
 ALLV = '{"root-dots", "flag-dots", "root-listed", "root-reversed", "root-dup"}'
 TWOV = '{"root-dots", "flag-dots"}'
 # (HistLen, Variants, ArgLen, WithPlace, WithArgv) per property and tier
-ALLBAD = '{"directive", "signature", "conversion", "unknown2", "enumkeys2", "fieldtargets2", "marker", "format", "ctxmissing3", "twopkgs", "twomarkers", "conversion2", "directive4"}'
+ALLBAD = '{"directive", "signature", "conversion", "unknown2", "enumkeys2", "fieldtargets2", "marker", "format", "ctxmissing3", "twopkgs", "twomarkers", "conversion2", "directive4", "twobroken", "extendmissing"}'
 FEWBAD = '{"conversion", "marker", "format"}'
 ONEBAD = '{"conversion"}'
 ALLLAY = '{"separate", "same", "shared", "tie", "twofiles"}'
 ALLTAG = '{"default", "custom", "multi", "envtag"}'
 # (HistLen, Variants, ArgLen, WithPlace, WithArgv, BadKinds, Layouts, Tags) per property and tier
 PARAMS = {
-    ("C09", "quick"): (3, ALLV, 1, False, False, '{"conversion", "conversion2", "directive4", "ctxmissing3", "unknown2", "fieldtargets2", "twopkgs", "twomarkers"}', '{"separate", "shared", "tie"}', '{"default"}'), ("C09", "thorough"): (3, ALLV, 1, True, False, ALLBAD, ALLLAY, ALLTAG),
+    ("C09", "quick"): (3, ALLV, 1, False, False, '{"conversion", "conversion2", "directive4", "twobroken", "ctxmissing3", "unknown2", "fieldtargets2", "twopkgs", "twomarkers"}', '{"separate", "shared", "tie"}', '{"default"}'), ("C09", "thorough"): (3, ALLV, 1, True, False, ALLBAD, ALLLAY, ALLTAG),
     ("C15", "quick"): (2, TWOV, 1, True, False, ONEBAD, ALLLAY, '{"default"}'), ("C15", "thorough"): (3, ALLV, 1, True, False, FEWBAD, ALLLAY, ALLTAG),
     ("C16", "quick"): (3, '{"root-dots"}', 1, False, False, ONEBAD, '{"separate", "same", "shared", "twofiles"}', ALLTAG), ("C16", "thorough"): (4, TWOV, 1, True, False, FEWBAD, ALLLAY, ALLTAG),
     ("C17", "quick"): (3, '{"root-dots"}', 3, False, True, ALLBAD, '{"separate", "twofiles"}', '{"default"}'), ("C17", "thorough"): (4, TWOV, 4, True, True, ALLBAD, ALLLAY, ALLTAG),
